@@ -371,6 +371,9 @@ impl SimFs {
         let n = self.inodes.get_mut(&ino).ok_or_else(|| err(EBADF))?;
         match &mut n.node {
             Node::File(d) => {
+                if off > 256 << 20 {
+                    return Err(err(ENOSPC));
+                }
                 let off = off as usize;
                 if d.len() < off {
                     d.resize(off, 0);
@@ -396,6 +399,11 @@ impl SimFs {
     }
 
     pub fn set_len(&mut self, ino: Ino, len: u64, now: u64) -> io::Result<()> {
+        // the simulated disk is finite: no sparse files beyond 256 MiB (a hostile length must
+        // not make the simulator itself allocate it)
+        if len > 256 << 20 {
+            return Err(err(ENOSPC));
+        }
         let n = self.inodes.get_mut(&ino).ok_or_else(|| err(EBADF))?;
         match &mut n.node {
             Node::File(d) => {
